@@ -2,9 +2,20 @@
 from __future__ import annotations
 
 import argparse
+import importlib
 import os
 
 from . import common as C
+
+ENGINES = {
+    "C01": "eng_expr", "C04": "eng_expr", "C05": "eng_expr",
+    "C02": "eng_fp", "C03": "eng_str",
+    "C06": "eng_store", "C07": "eng_annot", "C08": "eng_util", "C09": "eng_util", "C10": "eng_truth",
+    "C11": "eng_solver", "C12": "eng_solver", "C13": "eng_solver", "C14": "eng_solver", "C15": "eng_solver",
+    "C16": "eng_solver", "C17": "eng_solver", "C18": "eng_solver", "C26": "eng_solver",
+    "C19": "eng_gc", "C20": "eng_threads",
+    "C21": "eng_vsa", "C22": "eng_vsa", "C23": "eng_vsa", "C24": "eng_vsa", "C25": "eng_vsa",
+}
 
 
 def main():
@@ -17,10 +28,15 @@ def main():
     tier = a.tier if a.tier in ("quick", "thorough") else "quick"
 
     def run():
-        if a.pid in ("C01", "C04", "C05"):
-            from . import eng_expr
-            return eng_expr.check(a.pid, tier, regen=a.regen)
-        raise C.MachineryError("no check for " + a.pid)
+        if a.pid not in ENGINES:
+            raise C.MachineryError("no check for " + a.pid)
+        try:
+            mod = importlib.import_module("harness." + ENGINES[a.pid])
+        except ModuleNotFoundError as ex:
+            raise C.MachineryError(f"engine for {a.pid} not built: {ex}") from ex
+        if a.replay:
+            return mod.replay(a.pid, a.replay)
+        return mod.check(a.pid, tier, regen=a.regen)
 
     C.main_wrapper(run)
 
